@@ -28,6 +28,7 @@ static RELEASE_C: AtomicBool = AtomicBool::new(false);
 static GEN_M: AtomicU64 = AtomicU64::new(0);
 static GEN_C: AtomicU64 = AtomicU64::new(0);
 static SENT: AtomicU64 = AtomicU64::new(0);
+static DIVERGED: AtomicU64 = AtomicU64::new(0);
 
 fn install_gate() {
     *PARKED.lock().unwrap() = Some(HashMap::new());
@@ -268,9 +269,14 @@ fn run_schedule(tpl: &Template, case: &Case, prefix: &[usize]) -> RunOut {
             }
             let k = out.widths.len();
             let choice = if k < prefix.len() { prefix[k] } else { 0 };
-            if choice >= enabled.len() {
-                machinery_error(&format!("schedule prefix diverged at step {k}: choice {choice} of {}", enabled.len()));
-            }
+            let choice = if choice >= enabled.len() {
+                // the recorded prefix cannot be followed here (some hand-over finer than the
+                // scheduling points went the other way): still a real execution, judged as such
+                DIVERGED.fetch_add(1, SeqCst);
+                choice % enabled.len()
+            } else {
+                choice
+            };
             out.widths.push(enabled.len());
             let act = enabled[choice].clone();
             match act {
@@ -295,7 +301,22 @@ fn run_schedule(tpl: &Template, case: &Case, prefix: &[usize]) -> RunOut {
                     }
                 }
                 Act::P => {
+                    // while the subscriber is catching up, a task of its own moves broadcast events
+                    // into its buffer; that hand-over is not a scheduling point, so wait for it
+                    // (emit hook) - otherwise what the subscriber finds in its buffer next is a race
+                    let buffering = c_state == 1 && matches!(parked("C").as_deref(), Some("catchup.start" | "catchup.rows_done" | "catchup.snapshot_done" | "catchup.retry" | "catchup.checked"));
+                    let enq_before: Vec<usize> = (0..16u64).map(|k| vh::vnode::emit_count("catchup.enqueued", &k.to_string())).collect();
                     let m = pump(&mut evt_rx, &fwd_tx, &mut monitor, Duration::from_secs(5)).await;
+                    if let (true, Some(QueryEventMeta::Change(id))) = (buffering, m.as_ref()) {
+                        let k = id.0 as usize;
+                        let start = Instant::now();
+                        while k < 16 && vh::vnode::emit_count("catchup.enqueued", &k.to_string()) == enq_before[k] {
+                            tokio::time::sleep(Duration::from_micros(200)).await;
+                            if start.elapsed() > Duration::from_secs(10) {
+                                machinery_error("the catching-up subscriber did not buffer a broadcast event");
+                            }
+                        }
+                    }
                     forwarded += 1;
                     out.acts.push((Act::P, m.map(|m| meta_str(&m)).unwrap_or_default()));
                 }
@@ -930,6 +951,7 @@ fn main() {
     rep.set("evaluations", total);
     rep.set("traces_validated_against_impl", total);
     rep.set("cases", json!(per_case));
+    rep.set("schedules_whose_recorded_prefix_was_not_reproducible", DIVERGED.load(SeqCst));
     rep.set("exhaustive", capped.is_none());
     if let Some(c) = capped {
         rep.set("cap_hit", c);
